@@ -100,10 +100,10 @@ Proof.
   - apply andb_true_iff in H as [A B]. apply N.leb_le in A, B. exists 48, 57. split; [left; reflexivity|lia].
 Qed.
 
-Theorem lua_bare_key_sound k : k <> [] -> lua_needs_quoting k = false -> lua_is_name k = true.
+Theorem lua_bare_key_sound k : lua_needs_quoting k = false -> lua_is_name k = true.
 Proof.
-  intros Hne H. unfold lua_needs_quoting in H. apply orb_false_iff in H as [Hkw H].
-  destruct k as [|c r]; [congruence|].
+  intros H. unfold lua_needs_quoting in H. apply orb_false_iff in H as [Hkw H].
+  destruct k as [|c r]; [discriminate|].
   apply orb_false_iff in H as [H1 H2]. apply negb_false_iff in H1, H2.
   unfold lua_is_name. rewrite (alpha_is_start c H1). cbn [andb].
   assert (forallb lua_name_char r = true) as ->.
